@@ -76,7 +76,8 @@ struct StreamIdentifier {
      * \param server_port Server's port
      */
     StreamIdentifier(const address_type& client_addr, uint16_t client_port,
-                     const address_type& server_addr, uint16_t server_port);
+                     const address_type& server_addr, uint16_t server_port,
+                     bool is_v6 = false);
 
     /**
      * Indicates whether this stream identifier is lower than rhs
@@ -92,6 +93,7 @@ struct StreamIdentifier {
     address_type max_address;
     uint16_t min_address_port;
     uint16_t max_address_port;
+    bool is_v6;
 
     static StreamIdentifier make_identifier(const PDU& packet);
     static StreamIdentifier make_identifier(const Stream& stream);
